@@ -463,6 +463,19 @@ def search_zoo(ctx):
         ctx.count('zoo_runs')
         if msg:
             ctx.fail(dict(oracle='perturbation', kind=pert['kind']), f'[zoo:{name}] ' + msg, dict(kind='pert', cfg=cfg, pert=pert))
+    # always exercised, whatever the rotation gives: every base with mixing pools gets an unlisted zero-beta disease, first and last in the list
+    # (the rotation alone made this depend on the seed and on the number of zoo entries: seeded change C024a was missed after the zoo grew)
+    for name, cfg in zoo.configs(tags={'pools'}):
+        if any(isinstance(d.get('beta'), dict) for d in cfg['diseases']): continue
+        for first in (False, True):
+            pert = dict(kind='extra_disease', type='sir', name='ghostdis', beta=0, first=first)
+            try:
+                msg = oracle(cfg, pert)
+            except Exception as e:
+                ctx.count('zoo_exceptions'); ctx.notes['last_zoo_exception'] = f'{name} + extra_disease: {type(e).__name__}: {e}'; continue
+            ctx.count('zoo_runs'); ctx.count('zoo_pool_extra_disease')
+            if msg:
+                ctx.fail(dict(oracle='perturbation', kind=pert['kind']), f'[zoo:{name}] ' + msg, dict(kind='pert', cfg=cfg, pert=pert))
 
 
 def replay(ctx, data):
